@@ -416,7 +416,12 @@ func (s *Server) cmdJdel(msg *Message) (res resp.Value, d commandDetails, err er
 		nmsg := *msg
 		nmsg.Args = []string{"SET", key, id, "OBJECT", json}
 		// SET key id OBJECT json
-		return s.cmdSET(&nmsg)
+		res, d, err = s.cmdSET(&nmsg)
+		if err == nil && msg.OutputType == RESP {
+			// the reply of JDEL, not the +OK of SET
+			res = resp.IntegerValue(1)
+		}
+		return res, d, err
 	}
 
 	var oobj geojson.Object = collection.String(json)
